@@ -219,7 +219,7 @@ func Run(ctx *common.Ctx) int {
 		cov["sequential_part"] = "complete as in normal mode"
 		return ctx.Finish("fault_enumeration", cov, []string{"degraded mode for the parallel workflows: schedules sampled by the Go runtime"})
 	}
-	errKinds := []string{"eof", "unexpected", "custom", "partial1", "partialhalf", "partialminus1", "shortthen"}
+	errKinds := []string{"eof", "unexpected", "custom", "partial1", "partialhalf", "partialminus1", "shortthen", "typedthen"}
 	var tasks []e1.Task
 	for wi := range wf.All {
 		w := &wf.All[wi]
@@ -288,7 +288,7 @@ func Run(ctx *common.Ctx) int {
 	cov["sequential_fault_runs"] = int(evals)
 	cov["parallel_schedules"] = m.Execs
 	cov["rule"] = "sequential workflows: the source fails at every byte offset of PeriodDetect and SingleDetect(16/40/1280/4096) and at 4 offsets per sample of the 125000-byte workflows x {clean end, unexpected EOF, custom error, error together with a partial read} x {sticky, transient} x base read sizes; " +
-		"parallel workflows: fault at every Read index x 7 kinds x {sticky, transient} x W in {1,2,3} at deviation bound 0 under three default policies, and bound 1 (thorough: 2 for Period) at fault indices {0,1,s/2,s-2,s-1}; " +
+		"parallel workflows: fault at every Read index x 8 kinds x {sticky, transient} x W in {1,2,3} at deviation bound 0 under three default policies, and bound 1 (thorough: 2 for Period) at fault indices {0,1,s/2,s-2,s-1}; " +
 		"distinct = distinct (workflow, kind, sample, position class) for the sequential part plus distinct outcome signatures of the schedules"
 	cov["exhaustive"] = cov["exhaustive"].(bool) && !capped
 	return ctx.Finish("fault_enumeration", cov, []string{
